@@ -16,6 +16,17 @@ _HIST_ASSUME = [
 ]
 
 PROPS = {
+    "C08": {
+        "level": "exploration",
+        "jobs": [
+            {"run": "^TestC08", "checks": {"quick": 10, "thorough": 150}, "shards": {"quick": 4, "thorough": 16}, "steps": 25, "shrink_s": 45},
+        ],
+        "assumptions": [
+            "readings whose scaled value fits 32 signed bits (the property's domain; the other class is KF-C09-1)",
+            "loss, duplication and reordering are decided per datagram by the harness, which holds every emitted datagram; sync failures are injected by a TCP relay with one configured server",
+            "device capacity is large (2^40), so the capacity rule does not interfere with recovery",
+        ],
+    },
     "C10": {
         "level": "exploration",
         "jobs": [
@@ -175,6 +186,11 @@ PROPS = {
 
 # Texts for MANIFEST.json.
 META = {
+    "C08": {
+        "technique": "stateful property-based testing with generated fault sequences (per-datagram loss/duplication/reordering, per-attempt sync failures) between a real client and a real server",
+        "text": "Generated histories of readings, ticks, relay decisions for every emitted datagram, failing and succeeding sync rounds, clock advances, a rotation and a server restart end with a fault-free round and delivery of everything held. The server must then hold the device's value for every slot still inside its window and acceptance range; all datagrams for a slot must be byte-identical; each delivery is additionally checked against the server model. Exploration only.",
+        "note": "Eventual recovery is judged after an explicit fault-free round, as the property states; no timing assumption.",
+    },
     "C10": {
         "technique": "property-based differential testing of the sync reply between the real server, the real client parser and a reference decoder/acceptance rule; mutation-based negative testing through a fake endpoint",
         "text": "Generated server states (edge slots, banned slots, 0-4 signed servers with 0..255-byte locations, migration orders) are queried by a real client with the same device key; its parse must equal the server snapshot and the reference decoder. Captured genuine replies are then mutated (bit flips per layout region - exhaustive for sampled replies in the thorough tier -, truncation, extension, bad framing, re-signing by other keys, timestamp shifts re-signed with the server key, replies for another device, replaced entry/migration signatures) and served by a fake endpoint; the client must reject exactly those the reference acceptance rule rejects, and a full round against a rejected reply must leave client state and files unchanged. Exploration only.",
